@@ -91,7 +91,11 @@ def run(ctx):
         "detached closed limiter; it does not touch the tree",
     ]
     ctx.assumptions += [
-        "capacities are non-negative and below 2^62 (Go int arithmetic does not overflow); the model uses Nat",
+        "capacities are non-negative (the model uses Nat; a negative capacity makes `granted <= capacity` false with "
+        "nothing granted) and are Go ints, i.e. <= MaxInt (a fact of the type); no smaller bound is assumed: "
+        "C16.int_arithmetic_exact shows 0 <= used, last, queued amounts <= MaxInt and used <= capacity, so every "
+        "`capacity - used` of the code is exact and `used += amount` cannot wrap; both ties run capacities and "
+        "amounts at MaxInt, MaxInt-1, MaxInt/2+1 with usage summing past MaxInt within a period",
         "SetCap is a step of RL.Step (new cap >= 0): every theorem holds with SetCap calls anywhere in the run, except "
         "granted_le_cap / granted_le_min_cap_of_chain, which assume that SetCap has not been called so far (DESIGN "
         "Appendix B: SetCap mid-period is outside the stated quantifier); SetCap is generated and compared in both ties",
